@@ -12,6 +12,7 @@ import re
 import time
 
 from vverif import lockstep as ls
+from vverif import lsx
 from vverif.core import Result, Violation, HarnessError
 
 LEVEL = 'exploration'
@@ -188,7 +189,7 @@ def all_cases(quick):
 
 
 def make_world(ctx, shard):
-    return ls.World(ctx, 'w%d' % shard, ls.port_base_for_check(ctx.pid, shard), memory_cache=True)
+    return lsx.RetryWorld(ctx, 'w%d' % shard, ls.port_base_for_check(ctx.pid, shard), memory_cache=True)
 
 
 class Origin:
